@@ -25,9 +25,18 @@ def standard(pid, tier, seed, theorem_files, runs, level="proof", vm_k=40, post=
     for i, r in enumerate(runs):
         n = r["thorough"] if tier == "thorough" else r["quick"]
         shards = r.get("shards_thorough", 1) if tier == "thorough" else 1
+        # the shards of a run are independent processes (own seed, own output files, own node directories): run them side by side
+        def one(sh_i, r=r, n=n):
+            return chk.run_harness(r["cmd"], n, f"{r['cmd']}_{sh_i}", r.get("extra", ""), seed=seed + 7919 * sh_i,
+                                   timeout=r.get("timeout", 1500) * (2 if shards > 1 else 1), race=race)
+        if shards > 1:
+            from concurrent.futures import ThreadPoolExecutor
+            with ThreadPoolExecutor(max_workers=min(shards, 8)) as ex:
+                shard_results = list(ex.map(one, range(shards)))
+        else:
+            shard_results = [one(0)]
         for sh_i in range(shards):
-            st, cases, raw = chk.run_harness(r["cmd"], n, f"{r['cmd']}_{sh_i}", r.get("extra", ""), seed=seed + 7919 * sh_i,
-                                             timeout=r.get("timeout", 1500), race=race)
+            st, cases, raw = shard_results[sh_i]
             if st is None:
                 chk.notes.append(f"harness {r['cmd']} failed: {raw}")
                 chk.violation(f"harness-{r['cmd']}", {"broken": f"harness command {r['cmd']} crashed", "detail": raw}, found_input=False)
